@@ -98,15 +98,30 @@ def questions(r, zones, hosts):
 
 
 def random_config(r):
+    """zones for the same apex draw their records from one pool (in different orders), so files overlap"""
     apexes = [[], ["lan"], ["example", "com"]]
+    pools = {}
+    for apex in apexes:
+        z = gen.rand_zone(r, maxrecs=14, maxdepth=2, d1free=True, apex=apex, auth=True,
+                          types=["A", "A", "AAAA", "MX", "TXT", "NS", "CNAME"], labels=["a", "b", "www", "h"], wild_p=0.3)
+        pool = z["recs"]
+        # several records of one type at one owner, so that overlaps are not adjacent
+        for x in list(pool)[:4]:
+            if x["type"] == "A":
+                for k in range(2):
+                    y = dict(x)
+                    y["data"] = "10.3.%d.%d" % (k, r.randint(1, 5))
+                    pool.append(y)
+        pools[tuple(apex)] = pool
     zones = []
     for _ in range(r.randint(1, 5)):
         apex = r.choice(apexes)
         auth = r.random() < 0.6 or bool(apex)
-        z = gen.rand_zone(r, maxrecs=8, maxdepth=2, d1free=True, apex=apex, auth=auth,
-                          types=["A", "AAAA", "MX", "TXT", "NS", "CNAME"], labels=["a", "b", "www", "h"], wild_p=0.3)
-        if auth:
-            z["soa"] = gen.soa_rec(apex, r.choice([0, 60, 3600]), serial=r.randint(1, 999))
+        pool = pools[tuple(apex)]
+        recs = r.sample(pool, r.randint(0, min(len(pool), 8))) if pool else []
+        r.shuffle(recs)
+        z = {"apex": list(apex), "auth": auth, "soa": gen.soa_rec(apex, r.choice([0, 60, 3600]), serial=r.randint(1, 999))
+             if auth else gen.dummy_soa(), "recs": [dict(x) for x in recs]}
         zones.append(z)
     hosts = []
     for _ in range(r.randint(0, 3)):
